@@ -114,6 +114,9 @@ class MutArr:
                         ext = max(ext, b)
                     elif m >= n:
                         raise Reject("negative stop in a new mode")
+                if grow and m >= n and ext == 0:
+                    # `0:0` on a mode that does not exist yet: a new mode of extent 0 would leave no cell at all
+                    raise Reject("empty region in a new mode")
                 lists.append(list(range(ext)[slice(a, b, c)]))
                 kept.append(True)
             newshape.append(ext)
